@@ -11,7 +11,7 @@ DRIVER = "drivers/Run.lean"
 TRUSTED_BASE = RUN_TRUSTED + ["scheduler-only stream: harness/props/_sched.py (drivers/Sched.lean)", "rejection of cyclic / unknown / unscheduled dependencies before anything executes: C14's Model/Deps.lean theorems (resolve_ok_iff) and stream C14.validate"]
 ASSUMPTIONS = RUN_ASSUMPTIONS + []
 RULE = 'sched stream: random dependency DAG × behaviours × threads × gates; run stream: generated project (harness/run/gen.py) × nb_threads 1..8 × gate strategy (off/fifo/lifo/random) forcing completion orders; non-trivial = ≥ 2 tests, ≥ 1 body entered, ≥ 8 events; distinct = hash of the case (project + schedule parameters); C04 additionally needs ≥ 1 dependency edge'
-EXPLANATION = 'Dependency ordering (direct and transitive), run-only-if-dependencies-succeeded and skip propagation are Lean theorems over every task graph and interleaving, instantiated for every valid project through buildTasks (C01Graph.test_starts_after_its_dependencies); real runs are replayed on the model and checked by the oracle.'
+EXPLANATION = 'Dependency ordering (direct and transitive), run-only-if-dependencies-succeeded and skip propagation are Lean theorems over every task graph and interleaving, instantiated for every valid project through buildTasks (C01Graph.test_starts_after_its_dependencies); real runs are replayed on the model and checked by the oracle. Accepted real traces are provably executions of the scheduler model (C01Accept.accepted_dependencies_finished_before_start, …_test_with_failed_dependency_is_skipped).'
 
 
 def witness(title_prefix):
